@@ -131,10 +131,54 @@ func (g *zzC08Gen) program(shape int) (defs []slip.Object, rest []slip.Object) {
 			zzDefun("zzb", nil, g.m(), g.m()),
 			g.tr(zzL(S("list"), zzL(S("zza")), zzL(S("zzc")))),
 		}
+	case 8, 9:
+		// a function reading a global variable that may not exist yet when the function is
+		// defined; the global is introduced by defvar (8) or by a top-level setq (9); a second
+		// function assigns it.  g.site selects how the reader refers to the variable.
+		V := S("zzlimit")
+		var body []slip.Object
+		switch g.site {
+		case 0:
+			body = []slip.Object{V}
+		case 1:
+			body = []slip.Object{g.m(), V}
+		case 2:
+			body = []slip.Object{zzL(S("+"), V, g.m())}
+		case 3:
+			body = []slip.Object{zzL(S("if"), V, zzL(S("list"), V, g.m()), g.m())}
+		case 4:
+			body = []slip.Object{g.tr(V)}
+		case 5:
+			body = []slip.Object{zzL(S("let"), zzL(zzL(S("v"), g.m())), V)}
+		case 6:
+			body = []slip.Object{zzL(S("funcall"), zzL(S("lambda"), zzL(S("a")), V), g.m())}
+		default:
+			g.invalid = true
+		}
+		intro := zzL(S("defvar"), V, g.m())
+		if shape == 9 {
+			intro = zzL(S("setq"), V, g.m())
+		}
+		defs = []slip.Object{
+			append(slip.List{S("defun"), S("zzget"), nil}, body...),
+			intro,
+			zzDefun("zzset", zzL(S("v")), zzL(S("setq"), V, S("v"))),
+		}
+		rest = []slip.Object{g.tr(zzL(S("zzget"))), g.tr(zzL(S("zzset"), g.m())), g.tr(zzL(S("zzget")))}
 	default:
 		g.invalid = true
 	}
 	return
+}
+
+// zzHoisted: top-level forms that Code.Compile evaluates at compile time.
+func zzHoisted(f slip.Object) bool {
+	l, ok := f.(slip.List)
+	if !ok {
+		return false
+	}
+	h := zzHead(l)
+	return h == "defun" || h == "defvar"
 }
 
 var zzPerm3 = [][]int{{0, 1, 2}, {0, 2, 1}, {1, 0, 2}, {1, 2, 0}, {2, 0, 1}, {2, 1, 0}}
@@ -142,6 +186,7 @@ var zzPerm3 = [][]int{{0, 1, 2}, {0, 2, 1}, {1, 0, 2}, {1, 2, 0}, {2, 0, 1}, {2,
 var zzC08Carves = []zzCarve{
 	{zzHFwdCall, "C08-forward-call-drops-arguments"},
 	{zzHStaleCall, "C08-redefinition-not-seen-by-later-call-sites"},
+	{zzHLambdaSym, "C07-lambda-body-symbol-never-unbound"},
 }
 
 // VerifC08Order: shape of the call graph, kind of call site, permutation of the definitions,
@@ -205,6 +250,9 @@ func VerifC08Order(shape, site, order, mode int) {
 	// reference: late binding, forms in schedule order (a defun form evaluated again is a
 	// redefinition with the same body)
 	ref := zzNewRef()
+	if 8 <= shape {
+		ref.maxCalls = 40 // no recursion in these shapes: the bound only has to admit 3 rounds of the main forms
+	}
 	top := &zzFrame{}
 	rforms := make([]slip.Object, len(tops))
 	for i := range tops {
@@ -215,18 +263,19 @@ func VerifC08Order(shape, site, order, mode int) {
 	if compiled {
 		// Code.Compile evaluates the definitions first, then compiles the other forms
 		for i := range rforms {
-			if l, ok := rforms[i].(slip.List); ok && zzHead(l) == "defun" {
+			if zzHoisted(rforms[i]) {
 				ref.eval(rforms[i], top)
 			}
 		}
 		for i := range rforms {
-			if l, ok := rforms[i].(slip.List); ok && zzHead(l) != "defun" {
+			if !zzHoisted(rforms[i]) {
 				ref.bindEager(rforms[i])
 			}
 		}
 	}
 	for _, i := range sched {
-		if l, ok := rforms[i].(slip.List); ok && zzHead(l) == "defun" && compiled {
+		if compiled && zzHoisted(rforms[i]) {
+			l := rforms[i].(slip.List)
 			wants = append(wants, zzOne(zzVal{k: zzKSym, s: zzLower(string(l[1].(slip.Symbol)))}))
 			continue
 		}
